@@ -30,12 +30,25 @@ func runSweepMass(T time.Duration, n int) string {
 	conn := turbotunnel.NewQueuePacketConn(vaddr(0), T)
 	defer conn.Close()
 	chs := make([]<-chan []byte, n)
-	before := time.Now()
 	for i := range chs {
 		conn.WriteTo([]byte{byte(i)}, vaddr(100+i)) // a tiny packet waits in every queue
-		chs[i] = conn.OutgoingQueue(vaddr(100 + i))
 	}
-	after := time.Now()
+	// making n queues (48 KB each) takes a while; "seen at the same moment" = one more touch of all of them that
+	// completes within T/10 (repeated until it does; a queue that expired meanwhile is simply made anew)
+	var before, after time.Time
+	for try := 0; try < 50; try++ {
+		before = time.Now()
+		for i := range chs {
+			chs[i] = conn.OutgoingQueue(vaddr(100 + i))
+		}
+		after = time.Now()
+		if after.Sub(before) < T/10 {
+			break
+		}
+	}
+	if after.Sub(before) >= T/10 {
+		return "!slow-setup"
+	}
 	open := n
 	done := make([]bool, n)
 	lower := time.Duration(-1)
